@@ -29,7 +29,8 @@ pub fn gen_spec(rng: &mut Rng, with_overrides: bool) -> (CmdSpec, BTreeMap<Strin
         if rng.coin() {
             a.action = Some(Act::SetTrue);
         } else {
-            a.action = Some(Act::Set);
+            // Append options are given several times: value predicates must look at every occurrence
+            a.action = Some(if rng.chance(1, 4) { Act::Append } else { Act::Set });
             if rng.chance(1, 5) {
                 a.defaults = vec!["dflt".into()];
             }
@@ -357,9 +358,15 @@ pub fn case(seed: u64, st: &mut Stats) {
         }
         for &i in &seq {
             let a = &spec.args[i];
-            argv.push(format!("--{}", a.long.as_ref().unwrap()).into());
-            if a.takes_values() {
-                argv.push(if rng.coin() { "v1" } else { "v2" }.into());
+            let times = if a.act() == Act::Append { rng.range(1, 3) } else { 1 };
+            if times > 1 {
+                st.count("argv.append-several-occurrences");
+            }
+            for _ in 0..times {
+                argv.push(format!("--{}", a.long.as_ref().unwrap()).into());
+                if a.takes_values() {
+                    argv.push((*rng.pick(&["v1", "v2", "v3"])).into());
+                }
             }
         }
         let with_sub = !spec.subs.is_empty() && rng.chance(1, 3);
